@@ -57,6 +57,31 @@ pub fn crc32c(parts: &[&[u8]]) -> u32 {
     !c
 }
 
+/// The fold before the "never 0" rule is applied.
+pub fn raw_fold(c: u32) -> u16 {
+    ((c >> 16) ^ (c & 0xffff)) as u16
+}
+
+/// A value (ASCII, `len` bytes) for which the v3 record (key, value, ts, expiry) placed
+/// at `first_block` has the given raw token fold — the boundary cases of the token rule
+/// (raw fold 0 is stored as 1; 1 and 0xffff are stored as they are).
+pub fn value_with_raw_fold(key: &[u8], ts: u64, expiry: u64, first_block: u64, len: usize, target: u16) -> Vec<u8> {
+    for nonce in 0u64.. {
+        let mut value = format!("fold{target:04x}-{nonce:012}-").into_bytes();
+        while value.len() < len {
+            value.push(b'.');
+        }
+        value.truncate(len.max(24));
+        let r = Rec { key: key.to_vec(), value: value.clone(), timestamp: ts, expiry };
+        let bytes = encode_record(3, first_block, &r);
+        let c = crc32c(&[&first_block.to_le_bytes(), &bytes[0..2], &[0, 0], &bytes[4..]]);
+        if raw_fold(c) == target {
+            return value;
+        }
+    }
+    unreachable!()
+}
+
 pub fn fold(c: u32) -> u16 {
     let t = ((c >> 16) ^ (c & 0xffff)) as u16;
     if t == 0 {
